@@ -40,7 +40,7 @@ def examples(tier):
 
 
 def strategy(tier):
-    return gen_conv.cases(nice_only=True, cholds=True)
+    return gen_conv.cases(nice_only=True, cholds=True, holds=True)
 
 
 shrink_candidates = gen_conv.shrink_candidates
@@ -56,7 +56,7 @@ def model_for(case, admit_first=()):
         cap = c["capacity"]
     return simulate(L, il, v, cap, bool(c.get("acc", 1)), case["producer"], case["consumer"], case.get("T", 400.0), admit_first,
                     chold=case.get("chold"), ccancel=case.get("ccancel"), pcancel=case.get("pcancel"),
-                    producer2=case.get("producer2"), pcancel2=case.get("pcancel2"))
+                    producer2=case.get("producer2"), pcancel2=case.get("pcancel2"), hold=case.get("hold"))
 
 
 def compare(case, r, m):
@@ -119,6 +119,13 @@ def run_case(case):
             tie = next((j for j, tt in enumerate(m["ties"]) if j not in chosen and j not in useless and tt <= d[0]
                         and any(close(tt, x) for x in wd)), None)
             via_withdrawn = tie is not None
+        via_held = False
+        if tie is None and case.get("hold"):
+            # a tie whose admission is held for a loading time shows one loading time later, when the item is put
+            hs = sorted(set(h for h in case["hold"] if h > 0))
+            tie = next((j for j, tt in enumerate(m["ties"]) if j not in chosen and j not in useless and tt <= d[0]
+                        and any(close(tt + h, d[0]) for h in hs)), None)
+            via_held = tie is not None
         if tie is None:
             break
         # "admission before the stall" is a legitimate resolution of the tie unless the library's own same-time-step rule
@@ -127,7 +134,7 @@ def run_case(case):
         # the unchanged library refuses in either event order, and so does the model.
         idx = d[3]
         req_sorted = sorted(r.req_put)
-        if d[1] == "admit" and idx < len(req_sorted) and close(m["ties"][tie], d[0]):
+        if d[1] == "admit" and idx < len(req_sorted) and (close(m["ties"][tie], d[0]) or via_held):
             robust = False
             for hi, it in enumerate(r.items):
                 v = r.t_offer.get(id(it))
